@@ -23,6 +23,7 @@ static Action DISC(uint8_t rc = 0, ref::Props props = {}) { Action a = A(Action:
 static Action CANCEL() { return A(Action::CANCEL); }
 static Action SIGNAL(int op, int type) { Action a = A(Action::SIGNAL); a.target_op = op; a.sig_type = type; return a; }
 static Action slot(Action a) { a.with_slot = true; return a; }
+static Action chain(Action a) { a.chain = true; return a; }
 
 static const uint32_t RECOVERABLE = F_CONN | F_HS | F_WR | F_TAIL | F_RDCUT | F_LOSS | F_BCLOSE | F_NOREPLY;
 static const uint32_t SCHED = F_REORDER | F_CHUNK | F_WRSHORT | F_DELAY;
@@ -211,8 +212,11 @@ static void mon_c05(World& w) {
     if (!w.drain_result.done || !w.client) return;
     bool cancelled_all = w.sc.epilogue_cancel || w.stopped_phase;
     if (!cancelled_all) return;
-    for (auto& o : w.ops) if (o.completions == 0) w.vio("C05:never-completed:" + opname(o) + ":" + sn, opname(o) + " (op " + std::to_string(o.id) + ") never completed although the client was cancelled and the context drained");
-    if (w.drain_result.parked || w.drain_result.timers || !w.drain_result.ioc_stopped)
+    // operations issued on a client that is not running (never run, or stopped and not yet run again) are outside the
+    // documented use ("The Client cannot be used before calling async_run again") and are not judged
+    bool unjudged_pending = false; for (auto& o : w.ops) if (o.completions == 0 && o.after_stop) unjudged_pending = true;
+    for (auto& o : w.ops) if (o.completions == 0 && !o.after_stop) w.vio("C05:never-completed:" + opname(o) + ":" + sn, opname(o) + " (op " + std::to_string(o.id) + ") never completed although the client was cancelled and the context drained");
+    if (w.drain_result.parked || w.drain_result.timers || (!w.drain_result.ioc_stopped && !unjudged_pending))
         w.vio("C05:context-not-drained:" + sn, "after cancel() the execution context still has work: parked stream ops=" + std::to_string(w.drain_result.parked) + " timers=" + std::to_string(w.drain_result.timers) + " stopped=" + std::to_string(w.drain_result.ioc_stopped));
 }
 
@@ -614,6 +618,14 @@ std::vector<Scenario> scenarios_for(const std::string& prop, int tier) {
         uint32_t fam = F_WR | F_RDCUT | F_REORDER | F_DELAY | F_BCLOSE;
         { auto s = base("I-mixed-out-of-order", {RUN(), PUB(1, 1), SUB({{"a", 1}}), PUB(2, 2), UNSUB({"b"}), BARRIER(), PUB(1, 3), PUB(2, 4)}, fam, tier ? 2 : 1, M_C08); v.push_back(s); }
         { auto s = base("I-cancel-middle", {RUN(), slot(PUB(1, 1)), slot(PUB(1, 2)), slot(PUB(1, 3)), PUB(1, 4)}, fam | F_INJECT, tier ? 3 : 2, M_C08); s.inject = SIGNAL(2, 1); s.after_inject = {PUB(1, 5), PUB(2, 6)}; v.push_back(s); }
+        { // all 65535 identifiers outstanding (Receive Maximum 1 keeps them queued): the 65536th request reports pid_overrun, and only then
+          Scenario s = base("I-exhaustion", {RUN(), WAIT_HS(1)}, 0, 0, M_C08 | M_C15); s.broker.connack_props = {ref::pnum(0x21, 1)}; s.max_steps = 400000; s.horizon_s = 1000000; s.expect_all_success = false;
+          Action hold = PUB(1, 1); s.script.push_back(hold);
+          for (int i = 2; i <= 65535; ++i) { Action a = PUB(1, i); a.payload = "p" + std::to_string(i); a.topic = "x"; s.script.push_back(a); }
+          { Action a = PUB(2, 70000); a.expect_reject = true; a.expect_ec = 103; s.script.push_back(a); }                       // pid_overrun
+          { Action a = SUB({{"ov/1", 1}}); a.tag = 70001; a.expect_reject = true; a.expect_ec = 103; s.script.push_back(a); }
+          { Action a = UNSUB({"ov/2"}); a.tag = 70002; a.expect_reject = true; a.expect_ec = 103; s.script.push_back(a); }
+          s.broker.pingresp = true; s.epilogue_cancel = true; if (tier) v.push_back(s); }
         { auto s = base("I-rm1-reconnect", {RUN(), PUB(1, 1), PUB(2, 2), PUB(1, 3)}, fam | F_TAIL, 2, M_C08); s.broker.connack_props = {ref::pnum(0x21, 1)}; v.push_back(s); }
     }
     else if (prop == "C05" || prop == "C09") {
@@ -621,7 +633,9 @@ std::vector<Scenario> scenarios_for(const std::string& prop, int tier) {
         // base states; the stop action is injected at every choice point (and, with F_FINE, between any two handlers)
         struct B { const char* name; std::vector<Action> script; ref::Props ca; int flavour; };
         std::vector<B> bases = {
-            {"B1-never-run", {slot(PUB(1, 1)), slot(SUB({{"a", 1}})), slot(RECV(1))}, {}, 0},
+            // (operations on a client that has never been run are outside the documented use - see DESIGN 6.1 - and are not explored)
+            {"B9-burst-while-connected", {slot(RUN()), WAIT_HS(1), chain(slot(PUB(1, 1))), chain(slot(PUB(2, 2))), chain(slot(SUB({{"a", 1}}))), slot(PUB(0, 3)), slot(RECV(1))}, {}, 0},
+            {"B9-burst-while-connecting", {chain(slot(RUN())), chain(slot(PUB(1, 1))), chain(slot(PUB(0, 2))), slot(UNSUB({"a"})), slot(RECV(1))}, {}, 1},
             {"B2-connecting", {slot(RUN()), slot(PUB(1, 1)), slot(PUB(0, 2)), slot(RECV(1))}, {}, 0},
             {"B4-connected-rm1", {slot(RUN()), slot(RECV(1)), slot(PUB(1, 1)), slot(PUB(2, 2)), slot(SUB({{"a", 1}})), slot(PUB(0, 3))}, {ref::pnum(0x21, 1)}, 0},
             {"B4-connected-rm1-tcp", {slot(RUN()), slot(RECV(1)), slot(PUB(1, 1)), slot(PUB(2, 2)), slot(UNSUB({"a"}))}, {ref::pnum(0x21, 1)}, 1},
@@ -644,6 +658,15 @@ std::vector<Scenario> scenarios_for(const std::string& prop, int tier) {
             if (in.act.k == Action::SIGNAL) { s.monitors &= ~M_C09; }
             s.max_steps = 900;
             v.push_back(s);
+        }
+        if (!c9) {
+            // applications call the API from inside completion handlers (cancellable_handler::complete dispatches, i.e. the user's
+            // handler runs inline in replies::dispatch / async_sender's completion loop / resend()): op 1's handler performs the action
+            struct HK { const char* name; Action act; };
+            for (auto& hk : std::vector<HK>{{"publish", PUB(1, 70)}, {"publish-qos2", PUB(2, 71)}, {"subscribe", SUB({{"h/1", 1}})}, {"cancel", CANCEL()}, {"destroy", A(Action::DESTROY)}, {"disconnect", DISC(0)}, {"signal-next", SIGNAL(2, 1)}}) {
+                for (int rmv : {0, 1}) { Scenario s = base(std::string("B8-in-handler-") + hk.name + (rmv ? "-rm1" : ""), {slot(RUN()), slot(PUB(1, 1)), slot(PUB(2, 2)), slot(PUB(1, 3)), slot(RECV(1))}, F_WR | F_RDCUT | F_REORDER | F_DELAY | F_BCLOSE, tier ? 2 : 1, mon);
+                    if (rmv) s.broker.connack_props = {ref::pnum(0x21, 1)}; s.on_complete[1] = {hk.act}; s.expect_all_success = false; s.max_steps = 900; v.push_back(s);
+                    s.name += "-from-op2"; s.on_complete.clear(); s.on_complete[2] = {hk.act}; v.push_back(s); } }
         }
         if (c9) {
             // scripted disconnects: in the middle of traffic, with an oversized DISCONNECT, followed by 120 s of observed silence
@@ -706,23 +729,25 @@ std::vector<Scenario> scenarios_for(const std::string& prop, int tier) {
     }
     else if (prop == "C13") {
         // all sequences up to the length over {S ok, F all failed, X cancelled subscribe, R0 reconnect sp=0, R1 reconnect sp=1, M broker publishes}
-        int L = tier ? 5 : 4; const char* alpha = "SFXrRM"; int nseq = 0;
+        int L = tier ? 5 : 4; const char* alpha = "SFXrRMB"; int nseq = 0;
         std::vector<int> idx; std::function<void()> gen = [&]() {
-            if (!idx.empty()) { Scenario s = base("Q-", {RUN(), RECV(12)}, 0, 0, M_C13); std::string nm; int subs = 0, recon = 0; s.broker.sp_policy = {-1};
+            if (!idx.empty()) { Scenario s = base("Q-", {RUN(), RECV(12)}, 0, 0, M_C13); std::string nm; int subs = 0, recon = 0, connects = 1; s.broker.sp_policy = {-1};
                 for (int k : idx) { char c = alpha[k]; nm.push_back(c);
                     if (c == 'S') { s.script.push_back(SUB({{"s/" + std::to_string(subs), 1}})); s.script.push_back(BARRIER()); subs++; }
                     if (c == 'F') { s.script.push_back(SUB({{"f/" + std::to_string(subs), 1}})); s.script.push_back(BARRIER()); s.broker.suback_script.resize(subs + 1); s.broker.suback_script[subs] = {0x87}; subs++; }
-                    if (c == 'X') { Action a = slot(SUB({{"x/" + std::to_string(subs), 1}})); s.script.push_back(a); s.script.push_back(SIGNAL(-2, 1)); s.script.push_back(A(Action::KILLCONN)); s.script.push_back(WAIT_HS(2 + recon)); s.script.push_back(BARRIER()); recon++; s.broker.sp_policy.push_back(-1); subs++; }
-                    if (c == 'r' || c == 'R') { s.script.push_back(A(Action::KILLCONN)); s.script.push_back(WAIT_HS(2 + recon)); recon++; s.broker.sp_policy.push_back(c == 'r' ? 0 : -1); }
+                    if (c == 'X') { Action a = slot(SUB({{"x/" + std::to_string(subs), 1}})); s.script.push_back(a); s.script.push_back(SIGNAL(-2, 1)); s.script.push_back(A(Action::KILLCONN)); s.script.push_back(WAIT_HS(2 + recon)); s.script.push_back(BARRIER()); recon++; connects++; s.broker.sp_policy.push_back(-1); subs++; }
+                    if (c == 'r' || c == 'R') { s.script.push_back(A(Action::KILLCONN)); s.script.push_back(WAIT_HS(2 + recon)); recon++; connects++; s.broker.sp_policy.push_back(c == 'r' ? 0 : -1); }
+                    if (c == 'B') { s.broker.connack_rc_script.resize(connects + 1, 0); s.broker.connack_rc_script[connects] = 0x89; connects += 2; s.script.push_back(A(Action::KILLCONN)); s.script.push_back(WAIT_HS(2 + recon)); recon++; s.broker.sp_policy.push_back(-1); }
                     if (c == 'M') { s.script.push_back(BPUB(1, 100 + int(s.script.size()))); } }
                 for (size_t i = 0; i < s.broker.suback_script.size(); ++i) if (s.broker.suback_script[i].empty()) s.broker.suback_script[i] = {0x01};
                 s.name += nm; s.expect_all_success = false; s.fam = tier ? (F_REORDER | F_CHUNK) : 0; s.D = tier ? 1 : 0; s.idle_tail_s = 0; nseq++;
                 v.push_back(s); }
             if (int(idx.size()) == L) return;
-            for (int k = 0; k < 6; ++k) { idx.push_back(k); gen(); idx.pop_back(); } };
+            for (int k = 0; k < 7; ++k) { idx.push_back(k); gen(); idx.pop_back(); } };
         gen();
         // reconnect through the write path and through both paths at once, with faults around the CONNACK
-        { auto s = base("Q-faulty-SrMS", {RUN(), RECV(8), SUB({{"a", 1}}), BARRIER(), PUB(1, 1), PUB(2, 2), SUB({{"b", 1}})}, F_WR | F_RDCUT | F_BCLOSE | F_REORDER | F_TAIL, tier ? 3 : 2, M_C13); s.broker.sp_policy = {-1, 0, -1, 0}; s.expect_all_success = false; v.push_back(s); }
+        { auto s = base("Q-faulty-SrMS", {RUN(), RECV(8), SUB({{"a", 1}}), BARRIER(), PUB(1, 1), PUB(2, 2), SUB({{"b", 1}})}, F_WR | F_RDCUT | F_BCLOSE | F_REORDER | F_TAIL, tier ? 3 : 2, M_C13); s.broker.sp_policy = {-1, 0, -1, 0}; s.expect_all_success = false; v.push_back(s);
+          s.name = "Q-faulty-handshakes"; s.fam = F_HS | F_CONN | F_RDCUT | F_BCLOSE; s.broker.sp_policy = {-1, -1, -1, -1}; s.hosts = "b0,b1"; v.push_back(s); }
     }
     else if (prop == "C14") {
         std::vector<uint8_t> codes = {0x00, 0x01, 0x02, 0x80, 0x87, 0x03, 0x11, 0x9E};
@@ -757,6 +782,18 @@ std::vector<Scenario> scenarios_for(const std::string& prop, int tier) {
             { Action a = SUB({{"p/t", 1}}, {ref::pnum(0x0B, 5)}); req(a, subid == 0 ? 109 : 0); }                // subscription_identifier_not_available
             s.max_steps = 1500; v.push_back(s);
         }
+        // capabilities change from one connection to the next: requests issued while holding the second CONNACK follow the second
+        { int k = 0; struct CapSet { int mq, ra, tam, wild, shared, subid; };
+          auto props_of = [](const CapSet& c) { ref::Props p; if (c.mq >= 0) p.push_back(ref::pnum(0x24, c.mq)); if (c.ra >= 0) p.push_back(ref::pnum(0x25, c.ra)); if (c.tam >= 0) p.push_back(ref::pnum(0x22, c.tam)); if (c.wild >= 0) p.push_back(ref::pnum(0x28, c.wild)); if (c.shared >= 0) p.push_back(ref::pnum(0x2A, c.shared)); if (c.subid >= 0) p.push_back(ref::pnum(0x29, c.subid)); return p; };
+          std::vector<CapSet> sets = {{-1, -1, -1, -1, -1, -1}, {0, 0, 0, 0, 0, 0}, {1, 1, 5, 1, 1, 1}, {0, -1, 2, 0, -1, 0}};
+          for (size_t a = 0; a < sets.size(); ++a) for (size_t b = 0; b < sets.size(); ++b) { if (a == b) continue; const CapSet& c2 = sets[b];
+              Scenario s = base("CapSeq-" + std::to_string(k++), {RUN(), WAIT_HS(1), PUB(0, 900), BARRIER(), A(Action::KILLCONN), WAIT_HS(2)}, 0, 0, M_C15); s.broker.connack_props_script = {props_of(sets[a]), props_of(c2)}; s.broker.connack_props = props_of(c2);
+              int tag = 1; auto req = [&](Action x, int reject_ec) { x.tag = tag++; if (x.k == Action::PUB) x.payload = "payload-" + std::to_string(x.tag); x.expect_reject = reject_ec != 0; x.expect_ec = reject_ec; s.script.push_back(x); s.script.push_back(BARRIER()); };
+              int maxq = c2.mq < 0 ? 2 : c2.mq; for (int q = 0; q <= 2; ++q) req(PUB(q, 0), q > maxq ? 105 : 0);
+              req(PUB(0, 0, true), c2.ra == 0 ? 106 : 0);
+              int am = c2.tam < 0 ? 0 : c2.tam; for (int al : {1, am, am + 1}) { if (al == 0) continue; req(PUB(0, 0, false, {ref::pnum(0x23, uint32_t(al))}), (am == 0 || al > am) ? 107 : 0); }
+              req(SUB({{"w/+", 1}}), c2.wild == 0 ? 108 : 0); req(SUB({{"$share/g/t", 1}}), c2.shared == 0 ? 110 : 0); req(SUB({{"p/t", 1}}, {ref::pnum(0x0B, 5)}), c2.subid == 0 ? 109 : 0);
+              s.max_steps = 1500; s.expect_all_success = false; v.push_back(s); } }
         // Maximum Packet Size boundaries: s-1, s, s+1 for each request kind
         { ref::Packet pp; pp.type = ref::PUBLISH; pp.flags = 2; pp.pid = 1; pp.topic = "t/0"; pp.payload = "payload-1"; size_t ps = ref::encode(pp).size();
           ref::Packet sp; sp.type = ref::SUBSCRIBE; sp.pid = 1; sp.filters = {{"size/t", 1}}; size_t ss = ref::encode(sp).size();
